@@ -425,7 +425,52 @@ Fixpoint mrun (s : list (frame * rpc)) (ops : list (nat * op)) : list (frame * r
     let '(s2, evs2) := mrun s1 rest in
     (s2, evs ++ evs2)
   end.
+
+(* An RpcServer: the channels of its clients live in one process; a client may hang up at any time, upon
+   which the server deletes that client's channel and descriptor (None).  Anything that still refers to a
+   deleted channel -- bytes (there are none), a service completing one of its requests later -- must not
+   reach it: with fix 06 the completion only frees the request object. *)
+Inductive sop :=
+| SOp (i : nat) (o : op)      (* a step of client i's channel *)
+| SHangup (i : nat).          (* client i disconnects: ChannelClosed, CleanupChannel *)
+
+Definition sstep (s : list (option (frame * rpc))) (x : sop)
+  : list (option (frame * rpc)) * list (nat * event) :=
+  match x with
+  | SOp i o =>
+    match nth_error s i with
+    | Some (Some (f, r)) =>
+      let '(f', r', evs) := step decode method_kind req_ok service f r o in
+      (upd i (Some (f', r')) s, map (pair i) evs)
+    | _ => (s, [])
+    end
+  | SHangup i => (upd i None s, [])
+  end.
+
+Fixpoint srun (s : list (option (frame * rpc))) (ops : list sop)
+  : list (option (frame * rpc)) * list (nat * event) :=
+  match ops with
+  | [] => (s, [])
+  | x :: rest =>
+    let '(s1, evs) := sstep s x in
+    let '(s2, evs2) := srun s1 rest in
+    (s2, evs ++ evs2)
+  end.
 End Multi.
+
+(* the operations client i's channel sees: its own, up to its hang-up *)
+Fixpoint own_ops (i : nat) (ops : list sop) : list op :=
+  match ops with
+  | [] => []
+  | SOp j o :: rest => if Nat.eqb j i then o :: own_ops i rest else own_ops i rest
+  | SHangup j :: rest => if Nat.eqb j i then [] else own_ops i rest
+  end.
+Fixpoint hangs_up (i : nat) (ops : list sop) : bool :=
+  match ops with
+  | [] => false
+  | SHangup j :: rest => Nat.eqb j i || hangs_up i rest
+  | _ :: rest => hangs_up i rest
+  end.
 
 (* what belongs to channel i in an interleaved history / trace *)
 Definition proj {A} (i : nat) (l : list (nat * A)) : list A :=
